@@ -1170,12 +1170,30 @@ func (m *membersPool) Set(member Member) (added bool) {
 }
 
 func (m *membersPool) Remove(k *net.UDPAddr) (bool, error) {
-	return m.addrs.Remove(memberid(k), func(i Member, found bool) error {
-		if found {
-			_ = m.members.RemoveValue(i.Address().String())
+	id := memberid(k)
+
+	return m.addrs.Remove(id, func(i Member, found bool) error {
+		if found && i != nil {
+			m.removeNodeMember(i.Address().String(), id)
 		}
 
 		return nil
+	})
+}
+
+// removeNodeMember removes only the member of the given address from the
+// members of node.
+func (m *membersPool) removeNodeMember(node, id string) {
+	_, _, _, _ = m.members.SetOrRemove(node, func(members []Member, found bool) ([]Member, bool, error) {
+		if !found {
+			return nil, false, util.ErrLockedSetIgnore.WithStack()
+		}
+
+		nmembers := util.FilterSlice(members, func(n Member) bool {
+			return memberid(n.Addr()) != id
+		})
+
+		return nmembers, len(nmembers) < 1, nil
 	})
 }
 
